@@ -216,6 +216,25 @@ def run_case(ck, desc):
     mf = float(obj.m_scaled_func(p_f))
     if not (0 <= mf < 1):
         ck.violation("frac-face maps into [0,1)", {"p_f": p_f, "p_i": p_i, "m_scaled": mf}, desc)
+    # initial pressure BETWEEN two table rows: 1 at p_i up to the interpolation error of 1/m, i.e.
+    # 1 <= m_i <= (m_k + m_k+1)^2 / (4 m_k m_k+1) (C09's exact range), and m_scaled_func(p_i) = m_i
+    kk = max(2, min(len(P) - 2, ki))
+    p_off = float(P[kk] + (0.1 + 0.8 * u[2]) * (P[kk + 1] - P[kk]))
+    with warnings.catch_warnings(), np.errstate(all="ignore"):
+        warnings.simplefilter("ignore")
+        obj3 = fp.FlowPropertiesTwoPhase.from_table(arg, df_kr, refd, desc["phi"], Sw, p_off)
+    m3 = float(obj3.m_i)
+    hi3 = (got[kk] + got[kk + 1]) ** 2 / (4 * got[kk] * got[kk + 1])
+    if not (1 - 1e-12 <= m3 <= hi3 * (1 + 1e-12)):
+        ck.violation("m_i=1 (off-node, within interpolation error above 1)", {"m_i": m3, "upper": hi3, "p_i": p_off}, desc)
+    ck.margin("off-node: (m_i - 1) / (bound - 1)", m3 - 1, hi3 - 1 + 1e-12)
+    if abs(float(obj3.m_scaled_func(p_off)) - m3) > 1e-15 * abs(m3):
+        ck.violation("m_scaled_func(p_i)=m_i", {"m_i": m3, "func": float(obj3.m_scaled_func(p_off))}, desc)
+    ms3 = np.asarray(obj3.pvt_props["m-scaled"], dtype=float)
+    own3 = float(np.interp(p_off, P, ms3))
+    if abs(own3 - m3) > 1e-12 * abs(m3):
+        ck.violation("m_i=interp(m-scaled)(p_i)", {"m_i": m3, "own": own3}, desc)
+    ck.count("off_node_initial_pressures")
     # scaling
     f = 2.0 ** desc["scale_pow"]
     with warnings.catch_warnings(), np.errstate(all="ignore"):
